@@ -74,6 +74,34 @@ var valueKinds = []string{
 	"(function(){var a=[1,2,3];Object.defineProperty(a,'1',{get:function(){a.length=0;return 9},enumerable:true,configurable:true});return a})()",
 	"(function(){var p={};Object.defineProperty(p,'inh',{get:function(){return this},set:function(v){throw new TypeError('s')},enumerable:true});return Object.create(p,{own:{value:1}})})()",
 	"(function(){try{null.x}catch(e){return e}})()", "Object.create(new Error('p'))", "(function(){function M(){} M.prototype=new RangeError('p'); return new M()})()", "Object.create((function(){try{undefinedFn()}catch(e){return e}})())", "Object.create(/x/g)", "Object.create(new Date(0))", "Object.create([1,2])", "Object.create(function(a,b){})", "Object.create((function(){return arguments})(1,2))", "Object.create(new String('ab'))", "Object.preventExtensions([1,2])", "Object.seal({a:{}})", "(function(){var f=function(){};f.prototype=null;return f})()",
+	// numeric boundaries for the position/count product (appended)
+	`"abcdefgh"`, "2", "-3", "9223372036854775807", "-9223372036854775808", "1e300", "-1e300", "[1,2,3,4,5,6]",
+}
+
+// boundary product: index and count arguments around 0, inside the receiver,
+// and beyond every integer width, fully crossed on receivers that have a
+// length. Position arithmetic (start + count, size - start) fails on pairs,
+// not on single values, so sampling pairs from the whole kind list seldom
+// meets the ones that matter.
+var boundaryNums = kindIndexes("undefined", "0", "NaN", "1", "-1", "1.5", "-3", "2147483648", "4294967296", "9007199254740992", "9223372036854775807", "1e21", "-1e300", "Infinity", "-Infinity")
+var boundaryRecv = kindIndexes(`"abcdefgh"`, `"a\u00e9\ud83d\ude00"`, "[1,2,3,4,5,6]", `({length:3,0:"a",2:"c"})`, "goSlice")
+
+func kindIndexes(names ...string) []int {
+	var out []int
+	for _, n := range names {
+		found := false
+		for i, k := range valueKinds {
+			if k == n {
+				out = append(out, i)
+				found = true
+				break
+			}
+		}
+		if !found {
+			panic("c02: no value kind " + n)
+		}
+	}
+	return out
 }
 
 // excluded: (function suffix, reason). Resource exhaustion is outside the
@@ -493,6 +521,7 @@ func exec(c *run.Ctx, i int) {
 		runBatch(c, fn, "call", seq(nk), sample(r, nk, na), sample(r, nk, na), []int{0})
 		runBatch(c, fn, "new", []int{0}, sample(r, nk, na+2), sample(r, nk, na), sample(r, nk, 2))
 		runBatch(c, fn, "newbind", sample(r, nk, 2), sample(r, nk, 2), sample(r, nk, 2), []int{0})
+		runBatch(c, fn, "call", boundaryRecv, boundaryNums, boundaryNums, []int{0})
 		if c.Index%7 == 0 {
 			c.Sample(map[string]interface{}{"fn": fn, "receivers": nk, "arg_kinds": na})
 		}
